@@ -172,6 +172,53 @@ def explore_time(chk, rng, n_rand, classes, tag):
             chk.violation("Time AVP data are not the whole seconds since 1900-01-01", inp, e["spec"], "%s:%s" % (kind, val))
 
 
+def explore_bit_sequences(chk, rng, n, classes, tag):
+    """several operations on ONE object, the flag word re-assigned in between (`avp.data = ...`): every accessor must speak of
+    the data the AVP holds at that moment. Oracle: the statement itself on a Python integer (testBit / set / clear)."""
+    for _ in range(n):
+        cls = rng.choice(classes)
+        w = rng.choice(BOUNDARY_WORDS + [rng.randrange(2 ** 32)])
+        steps, trace, want = [], [], []
+        kind0, obj = guarded(lambda: cls(w))
+        if kind0 != "ok":
+            continue
+        cur = w
+        for _k in range(rng.choice([3, 4, 6, 8])):
+            op = rng.choice(["test", "test", "set", "unset", "assign", "assign-bytes"])
+            b = rng.choice([0, 1, 7, 8, 15, 16, 23, 24, 30, 31, rng.randrange(32)])
+            if op.startswith("assign"):
+                w2 = rng.choice(BOUNDARY_WORDS + [rng.randrange(2 ** 32), cur ^ (1 << b)])
+                steps.append("data = %08x" % w2)
+
+                def f(w2=w2):
+                    obj.data = w2.to_bytes(4, "big")
+                    return obj.data.hex()
+                kind, val = guarded(f)
+                cur = w2
+                want.append("%08x" % cur)
+            elif op == "test":
+                steps.append("is_bit_set(%d)" % b)
+                kind, val = guarded(lambda: obj.is_bit_set(b))
+                want.append(bool(cur >> b & 1))
+            else:
+                steps.append("%s_bit(%d)" % (op, b))
+                kind, val = guarded(lambda: (obj.set_bit(b) if op == "set" else obj.unset_bit(b)).hex())
+                isset = bool(cur >> b & 1)
+                if (op == "set") == isset:
+                    want.append("library error")
+                else:
+                    cur = cur ^ (1 << b)
+                    want.append("%08x" % cur)
+            trace.append(val if kind == "ok" else ("library error" if kind == "lib" else "exc:%s" % val))
+        final = obj.data.hex()
+        inp = {"op": "bit-sequence", "class": cls.__name__, "word": "%08x" % w, "steps": steps}
+        chk.case(inp, kind="bit-sequence:" + tag)
+        if trace != want or final != "%08x" % cur:
+            k = next((i for i, (a, c) in enumerate(zip(trace, want)) if a != c), len(steps) - 1)
+            chk.violation("after re-assigning the data of one AVP object a bit accessor does not speak of the data it now holds (step %d: %s)"
+                          % (k, steps[k]), inp, {"results": want, "final": "%08x" % cur}, {"results": trace, "final": final})
+
+
 def run(chk):
     rng = random.Random(chk.seed)
     changed, notes, funs = gen_pyfuns.generate()
@@ -199,6 +246,22 @@ def run(chk):
     explore_bits(chk, pairs, u32, rng, "sweep")
     explore_addr(chk, rng, 700 if chk.tier == "quick" else 70000, addr, "sweep")
     explore_time(chk, rng, 2000 if chk.tier == "quick" else 200000, tim, "sweep")
+    explore_bit_sequences(chk, rng, 1500 if chk.tier == "quick" else 100000, u32, "sweep")
+    # the encoding of a (naive) datetime must not depend on the time zone the process happens to run in
+    import os
+    import time as _time
+    saved_tz = os.environ.get("TZ")
+    try:
+        for tz in ("EST5EDT,M3.2.0,M11.1.0", "XXX-5:30", "NZST-12NZDT,M9.5.0,M4.1.0/3"):
+            os.environ["TZ"] = tz
+            _time.tzset()
+            explore_time(chk, rng, 100 if chk.tier == "quick" else 5000, tim, "tz=" + tz.split(",")[0])
+    finally:
+        if saved_tz is None:
+            os.environ.pop("TZ", None)
+        else:
+            os.environ["TZ"] = saved_tz
+        _time.tzset()
     chk.extra["exhaustive_domain"] = "boundary words x indices (bits); month starts / year ends 1900..2036 (time)"
 
     def search():
@@ -206,6 +269,7 @@ def run(chk):
         explore_bits(chk, more, u32, rng, "search")
         explore_addr(chk, rng, 3000, addr, "search")
         explore_time(chk, rng, 8000, tim, "search")
+        explore_bit_sequences(chk, rng, 20000, u32, "search")
 
     return chk.finish(search)
 
